@@ -12,9 +12,13 @@ Proof      : coq/Props/C01.v over Model/Commit.v (interleaving machine of the OC
              the interpretation only: distinct committers draw distinct positive snapshot ids / file names).  The retry
              budget of `step` is the regenerated one (C01_conflict_retried: the retry step is read off gen_tx_on, and with
              budget gen_max_retries a conflict is reported after exactly that many attempts).
-             ASSUMPTION made explicit: "a refused conditional write (412) was not applied" -- Model/CommitLate.v adds the
-             excluded event (write applied, writer told 412: an HTTP layer re-sending a request whose first copy landed);
-             C01_conflict_not_reflected_partial (holds without the event) / C01_conflict_not_reflected_refuted (false with it).
+             A REFUSAL (412) THAT ANSWERS AN APPLIED WRITE (an HTTP layer re-sending a conditional PUT whose first copy landed): the
+             library reads the pointer back before calling a refusal a conflict (gen_refused_reads_back = true, regenerated), and
+             "a commit that reported a conflict is not reflected" is stated over the machine WITH that read-back (Model/FlipFault.v
+             XFlipResent / XReadBack): C01_conflict_not_reflected_full is FALSE on every schedule (_refuted: a second committer
+             commits on top of the applied version before the read-back; committer 0, budget 1, reports the conflict and is in the
+             chain) and holds on the prompt machine (_partial, exact hypothesis: no pointer write lands between the applied-and-refused
+             write and its read-back).
              What `Excl` MEANS on a local filesystem is the layer below, Model/ProcLock.v:
              FileLock handles (one per Table handle) placed in OS processes by an arbitrary topology, the table of references
              to open descriptions of the lock file and the kernel's advisory lock under the ownership discipline of the
@@ -26,20 +30,25 @@ Proof      : coq/Props/C01.v over Model/Commit.v (interleaving machine of the OC
              one handle believes it holds, the handle's flag (the fence of the commit point) is the kernel's owner, every
              event moves that view the way Commit.v's `step` moves `w_lock`, nothing another handle does -- in the holder's
              process, in another, a forked twin -- drops the holder's lock, and a quiescent fork inherits NOTHING because an
-             idle handle of the regenerated program holds no descriptor (C01_lock_exclusive_any_topology,
-             C01_lock_refines_excl, C01_lock_not_dropped_by_others, C01_fork_inherits_nothing,
-             C01_lock_skeleton_regenerated); refutation witnesses: process-owned locks (POSIX record locks) with two handles
+             idle handle of the regenerated program holds no descriptor (C01_lock_exclusive_any_topology_partial,
+             C01_lock_refines_excl_partial, C01_lock_not_dropped_by_others_partial, C01_fork_inherits_nothing_partial,
+             C01_lock_skeleton_regenerated_partial -- `_partial` = under forks_quiescent; without it exclusivity is FALSE,
+             C01_lock_exclusive_refuted); the model has ONE lock object: that the lock file stays one inode (nothing in FileLock or
+             the package unlinks / renames / re-creates it) is checked by the translator, fail-closed (gen_filelock.py
+             _single_inode); refutation witnesses: process-owned locks (POSIX record locks) with two handles
              in one process; a fork while the copied handle holds (fork(2) itself); a handle that KEEPS its descriptor
              across acquisitions (Model/ProcLockKeep.v) forked while idle -- parent and worker both hold.
              STORAGE FAULTS AT THE COMMIT POINT and what the transaction does about them OUTSIDE the lock (conditional-write storage):
              Model/TxSettle.v, over Model/FlipFault.v (the pointer write raises, applied by the store or not, anywhere in any
              interleaving).  Once the exception has left MetadataManager.commit (lock released) the transaction's decision -- re-raise as
              it stands, or SETTLE the failure by reading the table back -- is a step of its own in the schedule; other committers may
-             have run to completion in between.  For EVERY settle policy that never contradicts the published history, every schedule:
-             a commit reported as a definite failure is not reflected, a commit reported as committed is, no data file of a reflected
-             commit is deleted (C01_settle_outside_lock_sound); the policy of the source is read off the regenerated handler table
-             (gen_tx_on over gen_flip_exn: the arm asserts nothing, keeps the files) and satisfies it, deleting nothing
-             (C01_regenerated_settle_sound); "is the CURRENT version ours?" does not (C01_tip_read_back_refuted: a second writer
+             have run to completion in between.  STABILITY: for every settle policy whose verdict agrees with the published history
+             at the settle step, the verdict stays true for the rest of the run (reported failed -> never reflected, reported
+             committed -> reflected, no file of a reflected commit deleted) -- on the PROMPT machine and with NO pointer write landing
+             after its sender unwound, both restrictions in the name (C01_settle_stable_prompt_no_late_landing_partial); the policy of
+             the source is read off the regenerated handler table (gen_tx_on over gen_flip_exn) and on conditional-write storage it
+             ASSERTS NOTHING: nobody is ever told "committed" / "definitely failed" on this path, nothing is deleted
+             (C01_regenerated_settle_never_definite); "is the CURRENT version ours?" is not a sound policy (C01_tip_read_back_refuted: a second writer
              commits on top of the applied-but-unacknowledged version before the read-back).  A handler arm of any other shape is
              refused by the translator (fail-closed).  In the machine a request that lands after its client gave up lands BEFORE the
              sender's unwinding; the harness runs late landings against the real code.
@@ -88,9 +97,9 @@ THEOREMS = ["C01_serializable", "C01_serializable_tables", "C01_acked_exactly_on
             "C01_conflict_not_reflected_partial", "C01_conflict_not_reflected_refuted",
             "C01_version_chain_linear", "C01_snapshot_chain",
             "C01_skeleton_regenerated", "C01_conflict_retried",
-            "C01_lock_exclusive_any_topology", "C01_lock_refines_excl", "C01_lock_not_dropped_by_others", "C01_fork_inherits_nothing",
-            "C01_lock_skeleton_regenerated",
-            "C01_settle_outside_lock_sound", "C01_regenerated_settle_sound", "C01_tip_read_back_refuted"]
+            "C01_lock_exclusive_any_topology_partial", "C01_lock_exclusive_refuted", "C01_lock_refines_excl_partial",
+            "C01_lock_not_dropped_by_others_partial", "C01_fork_inherits_nothing_partial", "C01_lock_skeleton_regenerated_partial",
+            "C01_settle_stable_prompt_no_late_landing_partial", "C01_regenerated_settle_never_definite", "C01_tip_read_back_refuted"]
 REQ = ["DS.Gen.GenCommit", "DS.Model.Commit", "DS.Gen.GenFileLock", "DS.Model.ProcLock"]
 MANIFEST_ENTRY = {
     "level_text": "Serializability of the OCC commit protocol proved in Coq (C01_serializable and companions) by an inductive "
@@ -102,8 +111,9 @@ MANIFEST_ENTRY = {
                   "of a local table is itself modelled and proved (Model/ProcLock.v: FileLock handles "
                   "in OS processes under an arbitrary process topology including workers created by fork() that inherit the parent's "
                   "handle and descriptors, reference table of open descriptions and kernel lock with the ownership "
-                  "discipline of the primitive the source calls; C01_lock_exclusive_any_topology, C01_lock_refines_excl, "
-                  "C01_lock_not_dropped_by_others, C01_fork_inherits_nothing -- for every event list whose forks copy idle handles); "
+                  "discipline of the primitive the source calls; C01_lock_exclusive_any_topology_partial, C01_lock_refines_excl_partial, "
+                  "C01_lock_not_dropped_by_others_partial, C01_fork_inherits_nothing_partial -- for every event list whose forks copy idle "
+                  "handles; false without that hypothesis: C01_lock_exclusive_refuted); "
                   "the model is tied to the code by trace validation: real commits run under a "
                   "deterministic scheduler at storage-operation granularity, as threads of one process, distributed over "
                   "several spawned OS processes (including the death of a process inside its critical section) and in process families "
@@ -116,10 +126,13 @@ MANIFEST_ENTRY = {
                   "storage faults at the commit point on conditional-write S3 (pointer PUT not applied / applied with the response lost / "
                   "in flight and landing later) are combined with schedules in which another writer commits at every step of the faulted "
                   "committer, including the steps Transaction.commit performs outside the lock after MetadataManager.commit returned or "
-                  "raised: Model/TxSettle.v proves for every schedule and every settle policy that never contradicts the published history "
-                  "that a commit reported failed is not reflected, one reported committed is, and no file of a reflected commit is deleted "
-                  "(C01_settle_outside_lock_sound), that the policy read off the regenerated handler table is such a policy "
-                  "(C01_regenerated_settle_sound) and that a tip-equality read-back is not (C01_tip_read_back_refuted); faulted runs of the "
+                  "raised: Model/TxSettle.v proves, on the prompt machine without pointer writes landing after their sender unwound, that a settle "
+                  "verdict agreeing with the published history at the settle step stays true (reported failed -> not reflected, reported "
+                  "committed -> reflected, no file of a reflected commit deleted: C01_settle_stable_prompt_no_late_landing_partial), that the "
+                  "policy read off the regenerated handler table never tells a caller anything definite and deletes nothing "
+                  "(C01_regenerated_settle_never_definite) and that a tip-equality read-back is unsound (C01_tip_read_back_refuted); a conflict "
+                  "reported for an applied-and-refused write: false on every schedule, true with a prompt read-back "
+                  "(C01_conflict_not_reflected_refuted / _partial over Model/FlipFault.v, the machine with the library's read-back); faulted runs of the "
                   "real code are trace-validated against that machine and judged by an oracle over the store's own pointer history "
                   "(acknowledged / failed / ambiguous accounting, referenced files exist, serial replay)",
     "level_note": "trusted: Coq kernel; translator/gen_commit.py, gen_filelock.py; projection of the storage log and of the lock-file "
@@ -129,13 +142,19 @@ MANIFEST_ENTRY = {
                   "list of applied operations, interpreted by Model/CommitMeta.v table_of (that the bytes a committer writes are Meta.step "
                   "of its base's is C15's correspondence; the clock reading of an event is not identified with the `tu` of the interpreted "
                   "operation); partial / assumptions spelled out in the statements: forks copy idle handles (forks_quiescent; refuted "
-                  "without it: C01_fork_while_holding_not_exclusive -- fork(2) itself); a refused conditional pointer write was not "
-                  "applied (C01_conflict_not_reflected_partial, hypothesis no_late; refuted without it: C01_conflict_not_reflected_refuted "
-                  "-- an HTTP client re-sending an If-Match PUT whose first copy landed; not produced by the harness); descriptors are "
+                  "without it: C01_lock_exclusive_refuted / C01_fork_while_holding_not_exclusive -- fork(2) itself; LFork copies one handle per "
+                  "event, FileLock.__del__ is pinned by the translator to `if self._locked: self.release()` and not modelled); the lock file "
+                  "stays ONE inode (gen_filelock.py _single_inode: no os.* call in FileLock.__init__/acquire/__del__ beyond dirname/makedirs, "
+                  "no other method, no other mention of the lock path in the package; fail-closed); a pointer write refused although applied "
+                  "is read back PROMPTLY (C01_conflict_not_reflected_partial, hypothesis prompt = true; refuted on every schedule: "
+                  "C01_conflict_not_reflected_refuted -- a second committer supersedes the applied version before the read-back); the lock-layer "
+                  "refinement (C01_lock_refines_excl_partial) is per step and is not composed with Commit.run in Coq; descriptors are "
                   "not dup()ed (a dup on the lock file is a correspondence failure); commit-point faults: one fault per run, injected at the "
                   "boto surface (harness/lib/protocol.py s3_fault) over harness/lib/mems3.py; in Model/TxSettle.v a request landing after its "
-                  "client gave up lands before the sender's unwinding (late landings are run against the real code only); the SDK-level "
-                  "re-send of an applied request (412 for an applied write) stays the explicit assumption above / C08's subject",
+                  "client gave up lands before the sender's unwinding and the machine is the prompt one (both in the name of "
+                  "C01_settle_stable_prompt_no_late_landing_partial; late landings are run against the real code only); the settle statements "
+                  "cover cas = true only; table configuration: the schedules also run on tables whose write.metadata.previous-versions-max / "
+                  "datashard.snapshot.retention-count are set small, with histories below / at / above the bound",
     "technique": "Coq invariant proofs over two interleaving machines (commit protocol; lock layer under arbitrary process topologies with "
                  "fork / descriptor inheritance), composition with the metadata model of C15, "
                  "translator-regenerated kernels and skeletons + trace validation of real executions, in-process, multi-process and across fork(); "
@@ -158,6 +177,40 @@ OPSETS3 = [
     [{"kind": "append", "rows": [{"x": 1}]}, {"kind": "append", "rows": [{"x": 2}]}, {"kind": "append", "rows": [{"x": 3}]},
      {"kind": "delete_snapshot", "which": "old"}],
 ]
+
+
+# TABLE CONFIGURATION x HISTORY LENGTH.  The table's own properties bound what a version remembers of its past: the metadata log
+# is trimmed to write.metadata.previous-versions-max entries, an append prunes snapshots beyond datashard.snapshot.retention-count.
+# Anything a commit derives from such a bounded structure stops changing once the history is as long as the bound, so the
+# schedules are run on tables whose history is SHORTER than, EQUAL to and LONGER than each bound -- with the bounds set small
+# (a prehistory step sets the property) instead of building tables of default size (100 versions).
+CAP_PROP = "write.metadata.previous-versions-max"
+RETENTION_PROP = "datashard.snapshot.retention-count"
+# operation mixes for tables with >= 3 snapshots: pairs / triples of commits that KEEP current_snapshot_id with DIFFERENT effects
+# (so that one undone by the other shows in the final table), and mixes with appends
+OPSETS_CFG = [
+    [{"kind": "delete_snapshot", "which": "second"}, {"kind": "expire", "cutoff": "mid"}],
+    [{"kind": "delete_snapshot", "which": "old"}, {"kind": "delete_snapshot", "which": "second"}],
+    [{"kind": "expire", "cutoff": "mid"}, {"kind": "delete_snapshot", "which": "second"}, {"kind": "append", "rows": [{"x": 300}]}],
+    [{"kind": "append", "rows": [{"x": 100}]}, {"kind": "delete_snapshot", "which": "second"}],
+]
+
+
+def config_histories(quick: bool) -> List[Tuple[str, List[Dict[str, Any]]]]:
+    """(label, prehistory): one table property set to a small bound b, then a history of appends whose length relative to b is
+    below / at / above it (never fewer than three snapshots, which the operation mixes need)."""
+    out: List[Tuple[str, List[Dict[str, Any]]]] = []
+    for prop, tag, bounds in ((CAP_PROP, "logcap", (1, 2, 5) if quick else (1, 2, 3, 5)),
+                              (RETENTION_PROP, "retain", (5,) if quick else (3, 4, 5))):
+        for b in bounds:
+            # versions committed after create = the property commit + the appends = b + rel + 1: below / at / above the bound
+            for rel in ((-2, 1) if quick else (-2, -1, 1)):
+                nap = max(3, b + rel)
+                label = f"{tag}{b}-hist{nap + 1}"
+                pre = [{"do": "set_property", "key": prop, "value": str(b)}] + [{"do": "append"}] * nap
+                if all(label != l for l, _p in out):
+                    out.append((label, pre))
+    return out
 
 
 def dev_chooser(dev: Dict[int, str]):
@@ -441,8 +494,11 @@ def _fix_case(case: Dict[str, Any]) -> Dict[str, Any]:
     for op in case["ops"]:
         op = dict(op)
         if op["kind"] == "expire" and op["cutoff"] == "mid":
-            # between the two initial snapshots' timestamps (virtual clock: start+10, start+20)
-            op["cutoff"] = 1_700_000_000_000 + 15
+            # just after the OLDEST initial snapshot's timestamp (virtual clock: setup step i is stamped start + 10 * (i + 1);
+            # default history = two appends; a `prehistory` may begin with steps that create no snapshot)
+            pre = case.get("prehistory")
+            first = next((i for i, st in enumerate(pre) if st["do"] == "append"), 0) if pre else 0
+            op["cutoff"] = 1_700_000_000_000 + 10 * (first + 1) + 5
         ops.append(op)
     c["ops"] = ops
     if case.get("tail_yields"):
@@ -529,6 +585,10 @@ def serial_oracle(case: Dict[str, Any], res: P.CaseResult, flips: Optional[List[
     snaps = [(sid, set(init["snapshots"][sid]["files"]), init["snapshots"][sid]["ts"]) for sid in init["snapshot_order"]]
     log = list(init["log_order"])
     cur = init["current"]
+    try:
+        retention = int((init["meta"].get("properties") or {}).get(RETENTION_PROP))
+    except (TypeError, ValueError):
+        retention = None
     rows_of_file: Dict[str, List[int]] = {}
     new_rows_by_actor: Dict[str, List[int]] = {}
     for a in flips:
@@ -540,8 +600,14 @@ def serial_oracle(case: Dict[str, Any], res: P.CaseResult, flips: Optional[List[
             snaps.append((sid, set(cur_files) | {("file", a)}, None))
             log.append(sid)
             cur = sid
+            # opt-in snapshot retention (table property): an append keeps the newest `retention` snapshots (and the current one)
+            if retention is not None and retention >= 1 and len(snaps) > retention:
+                keep = {s_[0] for s_ in snaps[-retention:]} | {cur}       # `snaps` is in commit = timestamp order
+                snaps = [s_ for s_ in snaps if s_[0] in keep]
+                log = [s_ for s_ in log if s_ in keep]
         elif op["kind"] == "delete_snapshot":
-            target = {"old": init["log_order"][0], "current": init["current"]}[op["which"]]
+            target = {"old": init["log_order"][0], "second": init["log_order"][min(1, len(init["log_order"]) - 1)],
+                      "current": init["current"]}[op["which"]]
             snaps = [s for s in snaps if s[0] != target]
             log = [s for s in log if s != target]
             if cur == target:
@@ -836,7 +902,7 @@ def check_runs(ctx, name: str, runs: List[Tuple[Dict[str, Any], Any, P.CaseResul
                       tuple(res.schedule)))
         why = serial_oracle(case, res)
         if why:
-            where = _where(case)
+            where = _where(case) + (case["config"] + ":" if case.get("config") else "")
             ctx.violation(f"not-serializable:{where}{case.get('clock', 'tick')}:{'+'.join(o['kind'] + ('-' + o['which'] if 'which' in o else '') for o in case['ops'])}",
                           why, {"case": _case_json(case), "deviations": list(dev), "schedule": res.schedule, "outcomes": res.outcomes})
         # ---- lock layer (local filesystem): the primitives on the lock file against Model/ProcLock.v
@@ -924,7 +990,10 @@ def run(ctx) -> None:
                 "conditional-write S3 (real lease lock / no exclusion) with one request-level fault at either committer's pointer PUT "
                 "{not applied, applied + response lost, in flight + landing later} x error kind x the other committer's whole commit at every "
                 "step of the faulted committer (every storage operation after the lock release is a scheduling point) + random schedules of "
-                "3-4 committers; distinct = distinct executed schedule per case")
+                "3-4 committers; table configuration x history length: write.metadata.previous-versions-max / datashard.snapshot.retention-count set "
+                "to small bounds b, history of b-1 / b / b+2 versions (>= 3 snapshots), metadata-only commits with different effects "
+                "(delete second-oldest / delete oldest / expire oldest) racing each other and appends, bounded-preemption enumeration; "
+                "distinct = distinct executed schedule per case")
     ctx.trusted_base += [
         "harness/lib/sched.py + protocol.py: deterministic scheduler, projection of the storage log onto Model/Commit.v events",
         "harness/lib/procsched.py: worker processes stepped over pipes (same yield points, merged log); process families created by os.fork() "
@@ -933,16 +1002,13 @@ def run(ctx) -> None:
         "harness/lib/mems3.py (strongly consistent in-memory S3 with If-Match / If-None-Match) + the request-level fault injector of protocol.py",
     ]
     ctx.assumptions += ["pointer intact (C10 covers damaged pointers)", "no garbage collection concurrent with commits (C06)",
-                        "a refused conditional pointer write (412 Precondition Failed) was NOT applied: the object store answers each request once "
-                        "and the HTTP client does not re-send an If-Match PUT whose first copy landed (botocore's default retry policy can, after a "
-                        "connection error / 5xx on the response); with such a re-send the commit is classified a clean conflict and its metadata file "
-                        "discarded while the pointer names it -- Model/CommitLate.v, C01_conflict_not_reflected_partial / _refuted; the runs of this check do "
-                        "not produce it (checked by hand with the fake store answering 412 after applying the PUT: Transaction.commit's retry re-reads, "
-                        "recovers the previous version by the pointer-recovery scan of C10 and commits again -- acknowledged once, reflected once; a "
-                        "budget-1 delete_snapshot raises and leaves the pointer naming the discarded file, which readers recover from by the same scan: "
-                        "not reflected, but only through C10's recovery)",
+                        "a conditional pointer write that the store applied and then refused to the writer's face (412 for the SDK's re-sent copy) "
+                        "is read back PROMPTLY: no other pointer write lands between the landing and the read-back (Model/FlipFault.v prompt machine; "
+                        "C01_conflict_not_reflected_partial; on every schedule the statement is false, C01_conflict_not_reflected_refuted: a second "
+                        "committer supersedes the applied version, the read-back sees the successor's name and the first committer is told 'conflict')",
                         "workers are forked while the parent's table handle is idle (between commits), not from inside a commit "
-                        "(forks_quiescent in the lock-layer theorems; C01_fork_while_holding_not_exclusive is the refutation without it)",
+                        "(forks_quiescent in the lock-layer theorems, all named _partial; C01_lock_exclusive_refuted is the refutation without it)",
+                        "the lock file stays one inode for the life of the table (translator/gen_filelock.py _single_inode, fail-closed)",
                         "C01_snapshot_chain: distinct committers draw distinct positive snapshot ids and metadata-file names (uuid4)"]
     ctx.proofs(THEOREMS, gen_files=["GenCommit.v", "GenFileLock.v"])
     ctx.allow_axioms([])
@@ -985,6 +1051,17 @@ def run(ctx) -> None:
         for sc_ in (scripts if not quick else scripts[::2]):
             res = _run(ctx, case, script_chooser(sc_), tag="c01h")
             runs.append((case, [("script", sc_)], res))
+    # 4c. table configuration x history length (see config_histories): metadata-only commits racing each other and appends on
+    #     tables whose bounded structures (metadata log, retained snapshots) are below / at / beyond their configured bound
+    for label, pre in config_histories(quick):
+        for oi, ops in enumerate(OPSETS_CFG):
+            if quick and oi >= 2 and not label.startswith(("logcap2", "retain")):
+                continue
+            case = {"ops": ops, "clock": "tick" if oi % 2 == 0 else "frozen", "topology": "separate", "prehistory": pre, "config": label}
+            for dev, res in explore(ctx, case, 1 if quick else 2, 6 if quick else 60):
+                runs.append((case, dev, res))
+    ctx.stats["config_history_schedules"] = sum(1 for c, _d, _r in runs if c.get("config"))
+    ctx.stats["config_histories"] = [l for l, _p in config_histories(quick)]
     _mark("in-process schedules")
     # 4b. ... and at the granularity of every primitive on the lock file: the window inside release()
     for ops in hand[1:]:
